@@ -2,7 +2,7 @@
 # usage: mkmut.sh <Cxx> <name> "<expected obligation substring>"
 # saves the uncommitted diff of the scratch worktree ($MUTWORK, default /tmp/mutwork) as mutations/<Cxx>/<name>.diff and resets the worktree
 set -eu
-W="${MUTWORK:-/tmp/mutwork}"
+W="${MUTWORK:-/tmp/mutwork_main}"
 V="$(cd "$(dirname "$0")/.." && pwd)"
 mkdir -p "$V/mutations/$1"
 { echo "# mutant for $1: $2"; echo "# expect: ${3:-}"; git -C "$W" diff; } > "$V/mutations/$1/$2.diff"
